@@ -21,7 +21,11 @@
 (* TLC checks on the bounded catalogue on which cells the outcome of this  *)
 (* dispatch is the documented one (SampFuncSem!Documented); KnownCell      *)
 (* names the cells where the CURRENT code leaves the documentation (open   *)
-(* findings), and is checked to be tight.                                  *)
+(* findings KF-EXT-SMP-2 / -3: a tuple returned by ONE callable), and is   *)
+(* checked to be tight.  The cells K1 (in-place-only function, out_dtype   *)
+(* None), K5 (array of callables, non-contiguous out) and the dtype of     *)
+(* uniform_discr_fromdiscr were repaired in /repo (2375b05, 80d697d,       *)
+(* ea69a05) and the transcription follows the repaired code.               *)
 (***************************************************************************)
 EXTENDS SampFuncSem
 
@@ -110,7 +114,6 @@ UserWrites(F, spell, inp, ssh) ==
   IN  Arr(F.vs \o ssh, Concat([k \in 1..Len(ws) |-> ws[k].v]))
 
 (* ------------------------------ the dispatch ----------------------------- *)
-Prefill == QI(-77)          \* what the caller's out array holds before the call (the harness fills it with -77)
 HasOut(spell)      == spell \in {"out", "dual"}
 OutOptional(spell) == spell = "dual"
 IsSeq(spell)       == spell \in {"seq", "seqout"}
@@ -150,9 +153,9 @@ ImplCall(c, spell) ==
       ELSE IF c.out = "none" THEN
         (IF IsSeq(spell) THEN (IF sin THEN Ok(Arr(osh, SeqOop(F, inp, ssh).v)) ELSE Ok(SeqOop(F, inp, ssh)))
          ELSE IF HasOut(spell) /\ ~OutOptional(spell) THEN
-            \* _default_oop: out_shape = val_shape + scalar_out_shape with val_shape = None when out_dtype is None
-            (IF c.dt = "none" THEN Err("TypeError")
-             ELSE Ok(Arr(osh, UserWrites(F, spell, inp, ssh).v)))
+            \* _default_oop: out = np.empty(val_shape + scalar_out_shape); func_ip(x, out=out)
+            \* (val_shape = () where the float64 default replaces out_dtype = None - repaired by 2375b05)
+            Ok(Arr(osh, UserWrites(F, spell, inp, ssh).v))
          ELSE IF HasOut(spell) THEN
             \* dual-use function called without out: returns its full result
             LET a == AsArray(UserRet(F, IF tv THEN "ndarray" ELSE "full", inp)) IN Ok(Arr(osh, a.v))
@@ -177,11 +180,9 @@ ImplCall(c, spell) ==
       ELSE IF c.out = "notarray" THEN Err("TypeError")
       ELSE IF c.out \in {"badshape", "baddtype"} THEN Err("ValueError")
       ELSE \* in place, out of the adequate shape osh ("nc": not C-contiguous - a Fortran-ordered array or a strided view)
-        (IF IsSeq(spell) /\ c.out = "nc" /\ Len(F.vs) >= 2
-           \* array_wrapper_func: out_arr.reshape((-1,) + scalar_out_shape) of a non-contiguous array is a COPY, the
-           \* members are written into the copy and out keeps what it held before (Prefill)
-           THEN Ok(Arr(osh, [t \in 1..ProdSeq(osh) |-> Prefill]))
-         ELSE IF IsSeq(spell) \/ HasOut(spell) THEN Ok(UserWrites(F, spell, inp, ssh))
+        \* array_wrapper_func indexes the value axes of out (always views; repaired by 80d697d), so the layout of out
+        \* does not matter
+        (IF IsSeq(spell) \/ HasOut(spell) THEN Ok(UserWrites(F, spell, inp, ssh))
          ELSE DefaultIp(F, spell, inp, ssh, osh))
 
 (* --------------------- where the current code leaves layer A ------------- *)
@@ -196,11 +197,9 @@ AllConst(F) == \A k \in 1..Len(F.comps) : UsedVars(F.comps[k]) = {}
 Valid(c) == c.xbad = "" /\ c.out \in {"none", "ok", "nc"} /\ (c.bc = "off" \/ AllInDom(c.dom, c.inp))
 KnownCell(c, spell) ==
   /\ Valid(c)
-  /\ \/ spell = "out" /\ c.dt = "none" /\ c.out = "none"                                  \* K1 _default_oop with out_dtype None
-     \/ spell = "tuple" /\ c.F.vs # <<>> /\ c.out = "none" /\ ResDType(c.dt) # "f64"         \* K2 dtype of a returned tuple
+  /\ \/ spell = "tuple" /\ c.F.vs # <<>> /\ c.out = "none" /\ ResDType(c.dt) # "f64"         \* K2 dtype of a returned tuple
      \/ spell = "tuple" /\ c.F.vs # <<>> /\ c.out = "none" /\ c.inp.form # "pt" /\ UniformPartial(c.F, c.inp)   \* K3 no broadcast
      \/ spell = "tuple" /\ c.F.vs # <<>> /\ c.out \in {"ok", "nc"} /\ c.inp.form # "pt" /\ AllConst(c.F)         \* K3 in place
-     \/ IsSeq(spell) /\ c.out = "nc" /\ Len(c.F.vs) >= 2                                     \* K5 reshape of a non-contiguous out copies
 Refines(c, spell) == KnownCell(c, spell) \/ AgreesDoc(c, spell)
 KnownIsTight(c, spell) == KnownCell(c, spell) => ~AgreesDoc(c, spell)
 
@@ -229,7 +228,8 @@ FdImplAxis(o, a, L, R) ==
 FdRefines(o, a, L, R) ==
   LET ax == FdImplAxis(o, a, L, R)
   IN  IF IsErrAxis(ax) THEN FdMayRaise(o, a, L, R) ELSE ax \in FdAllowed(o, a, L, R)
-\* uniform_discr_frompartition(new_part, exponent=discr.exponent, impl=discr.impl, **kwargs): dtype not forwarded
-FdImplDType(tdt, given) == IF given = "" THEN "f64" ELSE given
-FdDTypeKnown(tdt, given) == given = "" /\ tdt # "f64"
+\* dtype = kwargs.pop('dtype', discr.dtype); uniform_discr_frompartition(new_part, dtype=dtype, exponent=discr.exponent,
+\* impl=discr.impl, **kwargs)   (repaired by ea69a05: no known cell is left)
+FdImplDType(tdt, given) == IF given = "" THEN tdt ELSE given
+FdDTypeKnown(tdt, given) == FALSE
 =============================================================================
